@@ -150,6 +150,25 @@ pub fn power_boundary() -> impl Strategy<Value = QCase> {
         .prop_filter("skip markers", |c| c.nontrivial)
 }
 
+/// An exponent that carries a unit: raising to `(3 m)` has no meaning, the result must be an error whatever the
+/// base is (a number, a quantity, zero) and however the exponent came to its unit (written, or computed).
+fn exponent_with_a_unit() -> impl Strategy<Value = QCase> {
+    let base = prop_oneof![Just("2"), Just("0"), Just("1"), Just("(2 m)"), Just("(3 kg/s)"), Just("(0 s)"), Just("(1 / 2)")];
+    let unit = gen::single_unit().prop_map(|u| u.render());
+    let exp = (prop_oneof![Just("1"), Just("2"), Just("0"), Just("-1"), Just("3")], unit, 0u8..4).prop_map(|(n, u, shape)| match shape {
+        0 => format!("({} {})", n, u),
+        1 => format!("(1 - 1 {})", u),
+        2 => format!("({} {} * 1)", n, u),
+        _ => format!("({} {} + {} {})", n, u, n, u),
+    });
+    (base, exp, any::<bool>()).prop_map(|(b, e, starstar)| QCase {
+        query: format!("{} {} {}", b, if starstar { "**" } else { "^" }, e),
+        expect: Expect::Error { why: "the exponent carries a unit".into() },
+        nontrivial: true,
+        classes: vec!["exponent-with-a-unit".to_string()],
+    })
+}
+
 fn make_case(e: &Expr) -> Option<QCase> {
     let (nt, mut classes) = classify(e);
     let mut c = case_from_expr(e, &ObsEnv, nt, vec![])?;
@@ -181,11 +200,12 @@ fn check(e: &Expr) -> CaseReport {
 }
 
 pub fn run_check(ctx: &Ctx) {
-    ctx.set_rule("expression trees over quantity leaves (compound, derived, prefixed, powered units incl. spellings whose base powers cancel; one leaf in eight is a parenthesised sum, difference or cast of two commensurable quantities) with * / ^n (n in -3..3 incl. 0) and parentheses; oracle: reference evaluation on (SI value, dimension vector) pairs, the tool's result normalised through the Compound mirror and own arithmetic must match exactly whatever unit it displays; no unit entry with power 0; non-trivial = >=2 operators and a derived or prefixed unit; distinct by query text");
+    ctx.set_rule("expression trees over quantity leaves (compound, derived, prefixed, powered units incl. spellings whose base powers cancel; one leaf in eight is a parenthesised sum, difference or cast of two commensurable quantities) with * / ^n (n in -3..3 incl. 0) and parentheses; oracle: reference evaluation on (SI value, dimension vector) pairs, the tool's result normalised through the Compound mirror and own arithmetic must match exactly whatever unit it displays; no unit entry with power 0; also `(x u^a)^b` with a*b around the 32-bit boundary (the power fits: that power of u; it does not: an error, never a value with another unit) and exponents that carry a unit, written or computed (always an error); non-trivial = >=2 operators and a derived or prefixed unit; distinct by query text");
     let corpus: Vec<(String, QCase)> = load_corpus("C04");
     let cases: Vec<QCase> = corpus.into_iter().map(|c| c.1).collect();
     ctx.run_list("corpus", &cases, |c| judge(shared_db(), c), |c| to_json(c));
     let n = ctx.tier.pick(100_000u64, 2_000_000);
+    ctx.run_gen("exponent-with-a-unit", exponent_with_a_unit, 2_000, |c| judge(shared_db(), c), |c| to_json(c));
     ctx.run_gen("power-boundary", power_boundary, 3_000, |c| judge(shared_db(), c), |c| to_json(c));
     ctx.run_gen("generated", tree, n, check, |e| make_case(e).map(|c| to_json(&c)).unwrap_or(Value::Null));
 }
